@@ -32,6 +32,7 @@
    every derivation is justified by its cause + a decision opens its level + only the root is assigned at level
    0 and decided at level 1 + queued packages are undecided with a positive term. *)
 From Coq Require Import List Arith NArith Bool.
+From PG Require Proofs.SolverGen Proofs.SolverEndToEnd.
 From PG Require Import Model.VS Model.Term Model.Solver Model.Registry Proofs.VSLaws Proofs.SolverSem
   Proofs.SolverStore Proofs.SolverShared Proofs.SolverProto2 Proofs.SolverNoPanic1 Proofs.SolverNoPanic Proofs.SolverTerm1 Proofs.SolverTerm4 Proofs.SolverTerm.
 Import ListNotations.
@@ -124,6 +125,24 @@ Section C05.
       let Bound := (Pn * Wt + 2) ^ S Pn in
       Events0 O L R pkgs = (Pn + 3) * (2 * Bound + 1) /\ Fuel1 O L R pkgs = (2 * Bound + 4) + (2 * Bound + 1).
     Proof. split; reflexivity. Qed.
+
+    (* capstone (third session): the GENERATING model [resolve_g] (Proofs/SolverGen.v: the model asks a typed provider -
+       one answer function per callback, each may depend on the whole history - instead of checking a recording, and
+       the package decided next is computed by the exact heap of the priority-queue crate) is totally correct: against
+       every provider that answers according to a finite registry, never cancels and never fails, with fuel >= Fuel1
+       it makes at most Events0 provider calls and returns either a solution of the registry or NoSolution when none
+       exists.  No hypothesis about traces, picks or recordings is left: provider in, verdict out. *)
+    Theorem model_total_correctness :
+      singleton_atomic O L -> reg_wf O L reg ->
+      (forall a b, veqb a b = true -> a = b) -> (forall v, veqb v v = true) -> (forall s, vs_eqb O s s = true) ->
+      finite_registry ->
+      forall (pg : SolverGen.tprovider (VS := VS) (Vr := Vr)) fuel res tr,
+        SolverEndToEnd.serves O reg pg -> Fuel1 O L R pkgs <= fuel ->
+        SolverGen.resolve_g O veqb pg fuel r rv = (res, tr) ->
+        length tr <= Events0 O L R pkgs
+        /\ ((exists sol, fst (fst (fst res)) = OSolution sol /\ Solution O reg r rv (fun p => get p sol))
+            \/ (exists t, fst (fst (fst res)) = ONoSolution t /\ forall a, ~ Solution O reg r rv a)).
+    Proof. exact (SolverEndToEnd.resolve_g_total_correctness O L veqb reg r rv R pkgs). Qed.
   End Termination.
 
   (* Failure is excluded already for ANY trace in which choose_version answers inside the offered set, with no
@@ -196,6 +215,7 @@ Print Assumptions resolve_calls_bounded.
 Print Assumptions resolve_never_out_of_fuel.
 Print Assumptions resolve_terminates_ok_or_nosolution.
 Print Assumptions bounds_unfold.
+Print Assumptions model_total_correctness.
 Print Assumptions bitset_is_ranked.
 Print Assumptions C05ZTerm.range_ranked_terminates.
 Print Assumptions no_failure.
@@ -203,3 +223,12 @@ Print Assumptions derivation_tree_always_built.
 Print Assumptions C05Z.range_has_atomic_singletons.
 Print Assumptions bitset_has_atomic_singletons.
 Print Assumptions atomic_singletons_needed_refuted.
+
+(* non-vacuity of the capstone: every registry has a serving provider, and for the bitset VersionSet and the registry
+   of SolverSoundExample.v all hypotheses hold; the run is computed (a solution) *)
+From PG Require Import Proofs.SolverEndToEndExample.
+Theorem every_registry_has_a_serving_provider :
+  forall (VS Vr : Type) (O : VSOps VS Vr) (reg : registry (VS := VS) (Vr := Vr)),
+    SolverEndToEnd.serves O reg (reg_provider O reg).
+Proof. intros VS Vr O reg. exact (reg_provider_serves O reg). Qed.
+Print Assumptions every_registry_has_a_serving_provider.
